@@ -280,6 +280,21 @@ func c04NearMisses(thorough bool) []strEnum {
 		i /= len(uctx)
 		return strings.Replace(uctx[c], "%s", string([]byte{byte(0x80 + i/128), byte(0x80 + i%128)}), 1)
 	}})
+	// characters that are no token: every rune whose code point coincides with one of the parser's
+	// internal token numbers (goyacc numbers its tokens from U+E000), control characters, and other
+	// non-identifier runes, in every token position
+	var odd []rune
+	for r := rune(1); r < 0x20; r++ {
+		odd = append(odd, r)
+	}
+	for r := rune(0xE000); r < 0xE100; r++ {
+		odd = append(odd, r)
+	}
+	odd = append(odd, 0x7f, 0x80, 0xA0, 0x100, 0x2028, 0xD7FF, 0xF8FF, 0xFFFD, 0xFFFE, 0xFFFF, 0x10000, 0xF0000, 0x10FFFF)
+	octx := []string{"%s", "$[1 %s 2]", "$.a.%s()", "$ ? (@ %s 1)", "$.**{%s}", "$ %s", "%s 1", "$.%s", "%s $", "$.a %s \"a\"", "$ ? (%s(@))", "$[%s]", "1 %s 2", "$ ? (@ like_regex \"a\" %s \"i\")"}
+	out = append(out, strEnum{name: "non-token-runes", count: len(odd) * len(octx), at: func(i int) string {
+		return strings.Replace(octx[i%len(octx)], "%s", string(odd[i/len(octx)]), 1)
+	}})
 	// like_regex flags and patterns
 	flagAlpha := []string{"i", "s", "m", "x", "q", "a"}
 	flags := allStrings("flags", flagAlpha, 3)
